@@ -165,6 +165,40 @@ Definition validate_row (ftol btol : Q) (Smat : mat) (b : vec) (lb ub : list ebo
   | _, _ => []          (* no finite bound at all: outside the model *)
   end.
 
+(* ---------------------------------------------------------------- constraint_matrices / __build_problem *)
+(* util.array.constraint_matrices: a constraint is an equality row when (ub - lb) < zero_tol, with
+   right-hand side lb (0 when |lb| <= zero_tol); otherwise an inequality row with bounds [lb, ub].
+   A variable is fixed when ub - lb < zero_tol.  HRSampler.__build_problem adds a unit equality row
+   x_j = ub_j for every fixed variable with |ub_j| > feasibility_tol (zero_tol = feasibility_tol). *)
+Definition is_equality (tol : Q) (lb ub : ebound) : bool :=
+  match lb, ub with Some l, Some u => Qltb (u - l) tol | _, _ => false end.
+Definition eq_rhs (tol : Q) (lb : ebound) : Q :=
+  match lb with Some l => if Qltb tol (Qabs l) then l else 0 | None => 0 end.
+
+Fixpoint classify (tol : Q) (rows : mat) (lbs ubs : list ebound)
+  : (mat * vec) * (mat * list ebound * list ebound) :=
+  match rows, lbs, ubs with
+  | r :: rs, l :: ls, u :: us =>
+      let '((em, eb), (im, il, iu)) := classify tol rs ls us in
+      if is_equality tol l u then ((r :: em, eq_rhs tol l :: eb), (im, il, iu))
+      else ((em, eb), (r :: im, l :: il, u :: iu))
+  | _, _, _ => (([], []), ([], [], []))
+  end.
+
+Definition unit_row (n j : nat) : vec := map (fun i => if Nat.eqb i j then 1 else 0) (seq 0 n).
+
+Definition fixed_nonzero_rows (tol : Q) (vlb vub : list ebound) : mat * vec :=
+  let n := length vlb in
+  fold_right (fun jlu acc =>
+                let '(j, (l, u)) := jlu in
+                match l, u with
+                | Some lo, Some hi =>
+                    if Qltb (hi - lo) tol && Qltb tol (Qabs hi)
+                    then (unit_row n j :: fst acc, hi :: snd acc) else acc
+                | _, _ => acc
+                end)
+             ([], []) (combine (seq 0 n) (combine vlb vub)).
+
 (* ---------------------------------------------------------------- projection to fluxes *)
 Definition flux_of_vars (fwd rev : list nat) (x : vec) : vec :=
   map (fun fr => nth (fst fr) x 0 - nth (snd fr) x 0) (combine fwd rev).
